@@ -148,7 +148,7 @@ Definition as_tl (v : val) : option (list (option string)) :=
 Definition custom_load (id : string) (k : kind) (cur v : val) : option val :=
   if String.eqb id "crdt.trusted_peers" then
     match as_tl v with Some l => option_map VL (star_scan l) | None => None end
-  else if String.eqb id "restapi.ssl" then
+  else if String.eqb id "restapi.ssl_cert_file" || String.eqb id "restapi.ssl_key_file" then
     (* cfg.pathSSL*File = jcfg.SSL*File; whether the pair loads is an oracle used by the validator *)
     match v with VNone => Some (VS "") | VS s => Some (VS s) | _ => None end
   else None.
